@@ -14,6 +14,7 @@ import (
 	"net/http"
 	"net/http/httptest"
 	"os"
+	"strconv"
 	"strings"
 
 	"github.com/EliCDavis/polyform/generator"
@@ -77,9 +78,28 @@ type P2Data struct {
 	S nodes.NodeOutput[string]
 }
 
+// P2 cannot render one state of the graph (a = 2 and b = 2): its processor panics, as a processor
+// handed an impossible parameter combination does.  The failed call fails; nothing else may follow
+// from it — the next call on that state fails again, the next call on another state succeeds.
 func (d P2Data) Process() (artifact.Artifact, error) {
-	return basics.Text{Data: d.S.Value()}, nil
+	s := d.S.Value()
+	if s == "a2 b2" {
+		panic("p2 cannot render " + s)
+	}
+	return basics.Text{Data: s}, nil
 }
+
+// P4Data renders the float parameter d.
+type P4Data struct {
+	D nodes.NodeOutput[float64]
+}
+
+func (d P4Data) Process() (artifact.Artifact, error) {
+	return basics.Text{Data: "d" + strconv.FormatFloat(d.D.Value(), 'g', -1, 64)}, nil
+}
+
+// the values of d lie within 1e-9 of each other and of the default 0
+var dValues = [3]float64{0, 1e-10, 4e-10}
 
 // P3Data passes a slice-typed parameter through: the artifact keeps the slice it was given and
 // renders it only when it is written out — which the server (and this harness) does after the call
@@ -111,8 +131,15 @@ type world struct {
 	inst          *graph.Instance
 	v0            uint32 // model version right after construction
 	aID, bID, cID string
+	dID           string
 	// server mode: the real HTTP endpoints (nil when the clients call the Instance directly)
 	paramH, prodH http.Handler
+}
+
+func floatParts() (d *parameter.Value[float64], p4 nodes.NodeOutput[artifact.Artifact]) {
+	d = &parameter.Value[float64]{Name: "d", DefaultValue: 0}
+	p4 = (&nodes.Struct[artifact.Artifact, P4Data]{Data: P4Data{D: d.Out()}}).Out()
+	return
 }
 
 func graphParts() (a, b *parameter.Value[int], cp *parameter.Value[[]int], p1, p2, p3 nodes.NodeOutput[artifact.Artifact]) {
@@ -131,20 +158,22 @@ func graphParts() (a, b *parameter.Value[int], cp *parameter.Value[[]int], p1, p
 // go through the real parameter-value and producer HTTP endpoints, autosave off) or "server+autosave".
 func build(via string) world {
 	a, b, cp, p1, p2, p3 := graphParts()
+	d, p4 := floatParts()
 	if via == "" || via == "instance" {
 		inst := graph.New(&refutil.TypeFactory{})
 		inst.AddProducer("p1", p1)
 		inst.AddProducer("p2", p2)
 		inst.AddProducer("p3", p3)
-		return world{inst: inst, v0: inst.ModelVersion(), aID: inst.NodeId(a), bID: inst.NodeId(b), cID: inst.NodeId(cp)}
+		inst.AddProducer("p4", p4)
+		return world{inst: inst, v0: inst.ModelVersion(), aID: inst.NodeId(a), bID: inst.NodeId(b), cID: inst.NodeId(cp), dID: inst.NodeId(d)}
 	}
-	app := &generator.App{Name: "verif", Files: map[string]nodes.NodeOutput[artifact.Artifact]{"p1": p1, "p2": p2, "p3": p3}}
+	app := &generator.App{Name: "verif", Files: map[string]nodes.NodeOutput[artifact.Artifact]{"p1": p1, "p2": p2, "p3": p3, "p4": p4}}
 	savePath := ""
 	if via == "server+autosave" {
 		savePath = autosavePath()
 	}
 	inst, ph, prh := generator.VerifEndpoints(app, savePath)
-	return world{inst: inst, v0: inst.ModelVersion(), aID: inst.NodeId(a), bID: inst.NodeId(b), cID: inst.NodeId(cp), paramH: ph, prodH: prh}
+	return world{inst: inst, v0: inst.ModelVersion(), aID: inst.NodeId(a), bID: inst.NodeId(b), cID: inst.NodeId(cp), dID: inst.NodeId(d), paramH: ph, prodH: prh}
 }
 
 var autosaveFile string
@@ -174,9 +203,15 @@ var alphabet = []string{"Ua1", "Ub1", "Ra", "A1", "A2", "Ub2", "Ua2", "Rb"}
 // the slice-typed parameter c and its pass-through producer p3
 var sliceAlphabet = []string{"Uc1", "A3", "Uc2", "Rc"}
 
+// the float parameter d (values within 1e-9 of each other and of the default) and its producer p4
+var floatAlphabet = []string{"Ud1", "A4", "Ud2", "Rd"}
+
+// a = 2, b = 2 is the state p2 panics on
+var panicAlphabet = []string{"Ua2", "Ub2", "A2", "Ua1"}
+
 type opIn struct{ code string }
 
-type mstate struct{ a, b, c, v int } // v: number of completed updates = the model version
+type mstate struct{ a, b, c, d, v int } // v: number of completed updates = the model version
 
 var model = porcupine.Model{
 	Init: func() interface{} { return mstate{} },
@@ -193,6 +228,8 @@ var model = porcupine.Model{
 				s.b = v
 			case 'c':
 				s.c = v
+			case 'd':
+				s.d = v
 			}
 			s.v++
 			return output.(string) == "ok", s
@@ -207,6 +244,9 @@ var model = porcupine.Model{
 			case 'c':
 				b, _ := json.Marshal(cValues[s.c])
 				want = string(b)
+			case 'd':
+				b, _ := json.Marshal(dValues[s.d])
+				want = string(b)
 			}
 			return output.(string) == want, s
 		case 'A':
@@ -214,7 +254,12 @@ var model = porcupine.Model{
 			case '1':
 				return output.(string) == render1(s.a, s.b), s
 			case '2':
+				if s.a == 2 && s.b == 2 {
+					return output.(string) == "panic", s // the one state p2 cannot render
+				}
 				return output.(string) == render2(s.a, s.b), s
+			case '4':
+				return output.(string) == "d"+strconv.FormatFloat(dValues[s.d], 'g', -1, 64), s
 			}
 			return output.(string) == render3(s.c), s
 		}
@@ -240,7 +285,18 @@ func perform(w world, code string) string {
 	case 'R':
 		return string(w.inst.ParameterData(w.paramID(code)))
 	case 'A':
-		art := w.inst.Artifact("p" + code[1:2])
+		var art artifact.Artifact
+		if panicked := func() (p bool) {
+			defer func() {
+				if recover() != nil {
+					p = true
+				}
+			}()
+			art = w.inst.Artifact("p" + code[1:2])
+			return
+		}(); panicked {
+			return "panic"
+		}
 		// the artifact is written out after the call returned, outside the lock (as the server does):
 		// another client's complete update may run in between
 		vsched.Yield()
@@ -261,6 +317,8 @@ func (w world) paramID(code string) string {
 		return w.bID
 	case 'c':
 		return w.cID
+	case 'd':
+		return w.dID
 	}
 	return w.aID
 }
@@ -270,6 +328,10 @@ func (w world) paramID(code string) string {
 func message(code string) []byte {
 	if code[1] == 'c' {
 		b, _ := json.Marshal(cValues[code[2]-'0'])
+		return b
+	}
+	if code[1] == 'd' {
+		b, _ := json.Marshal(dValues[code[2]-'0'])
 		return b
 	}
 	return []byte(code[2:])
@@ -295,7 +357,21 @@ func performHTTP(w world, code string) string {
 		w.paramH.ServeHTTP(rec, httptest.NewRequest(http.MethodGet, "/parameter/value/"+id, nil))
 		return rec.Body.String()
 	case 'A':
-		w.prodH.ServeHTTP(rec, httptest.NewRequest(http.MethodGet, "/producer/value/p"+code[1:2], nil))
+		// a processor panic is the request's failure (net/http recovers it per request); the server goes on
+		if panicked := func() (p bool) {
+			defer func() {
+				if recover() != nil {
+					p = true
+				}
+			}()
+			w.prodH.ServeHTTP(rec, httptest.NewRequest(http.MethodGet, "/producer/value/p"+code[1:2], nil))
+			return
+		}(); panicked {
+			return "panic"
+		}
+		if rec.Code == http.StatusInternalServerError && strings.Contains(rec.Body.String(), "panic recover") {
+			return "panic" // the endpoint's own recovery: the request failed, as the call does on the instance
+		}
 		if rec.Code != http.StatusOK {
 			return fmt.Sprintf("http %d: %s", rec.Code, rec.Body.String())
 		}
@@ -492,6 +568,9 @@ func run(c *core.Ctx) {
 		{"server: 2 clients x <=2 ops, 5-op alphabet", "server", alphabet[:5], 2, 2},
 		{"server: slice-typed parameter, 2 clients x <=2 ops", "server", sliceAlphabet, 2, 2},
 		{"server+autosave: 2 clients x <=2 ops, 4-op alphabet", "server+autosave", alphabet[:4], 2, 2},
+		{"instance: float parameter with close values, 2 clients x <=2 ops", "instance", floatAlphabet, 2, 2},
+		{"instance: a state the producer cannot render, 2 clients x <=2 ops", "instance", panicAlphabet, 2, 2},
+		{"server: a state the producer cannot render, 2 clients x <=2 ops", "server", panicAlphabet, 2, 2},
 	}
 	if c.Thorough() {
 		fams = append(fams,
